@@ -16,6 +16,22 @@ Theorem C05_pwb_exact : forall macs m l f, bytes l ->
 Proof. exact pwb_exact_lemma. Qed.
 Print Assumptions C05_pwb_exact.
 
+(* ---- every sent channel has its full waveform ---- *)
+(* For a packet satisfying the field rules (by C05_pwb_exact: every accepted packet) and a channel c that was sent:
+   c is the k-th sent channel, waveform_at returns -- without panic, in both overflow modes -- exactly the samples w
+   of the k-th block of the encoding ([pwb_encode f] writes [block_bytes req c w] as its k-th block, w being the
+   k-th element of [pwb_waves f]), and there are exactly requested_samples of them. *)
+Theorem C05_waveform_at_block : forall macs m f c, pwb_fields_ok macs f -> In c (p_sent f) ->
+  exists k w, nth_error (p_sent f) k = Some c /\ nth_error (pwb_waves f) k = Some w /\
+              waveform_at m f c = Ok (Some w) /\ lenN w = p_req f.
+Proof. exact waveform_at_block_lemma. Qed.
+Print Assumptions C05_waveform_at_block.
+
+(* a channel that was not sent has no waveform (any packet value, both overflow modes) *)
+Theorem C05_waveform_absent : forall m f c, ~ In c (p_sent f) -> waveform_at m f c = Ok None.
+Proof. exact waveform_absent_lemma. Qed.
+Print Assumptions C05_waveform_absent.
+
 (* ---- the mask loop (padwing.rs:1390-1394) ---- *)
 (* For every u128 and both overflow modes the leading_zeros loop with fuel 128 terminates without panic and pushes
    exactly the set bits, highest first (the code then reverses: ascending).  [mask_bits num n] is
